@@ -204,7 +204,11 @@ def gen_race_history(w, rng, tier, regime=None, restarts=True, ties=True, p_rewr
         nonadmins = [c for c in alive if c not in admins]
         if nonadmins and rng.random() < p_adv:
             a = rng.choice(nonadmins); victim = rng.choice([c for c in alive if c != a])
-            e = w.publish(f"advremove {a} {victim} {base + rng.choice([-9, -4, 0, 3, 8] if ties else [-9, -4, 5, 8])}", "commit", a)
+            if rng.random() < 0.5:
+                e = w.publish(f"advremove {a} {victim} {base + rng.choice([-9, -4, 0, 3, 8] if ties else [-9, -4, 5, 8])}", "commit", a)
+            else:
+                # … or a GroupContextExtensions commit that writes its own author into the admin list
+                e = w.publish(f"advgce {a} {base + rng.choice([-9, -4, 0, 3, 8] if ties else [-9, -4, 5, 8])}", "commit", a)
             if e is not None:
                 w.events[e]["adv"] = True
                 new.append(e)
@@ -594,6 +598,9 @@ def model_input(w):
         elif t[0] == "advremove":
             if ev:      # the crafting itself can fail in OpenMLS (e.g. the adversary has a commit pending): nothing is published
                 out.append((i, f"advremove {t[1]} {t[2]} {ev.group(1)} {ev.group(3)} {ev.group(2)}"))
+        elif t[0] == "advgce":
+            if ev:
+                out.append((i, f"advgce {t[1]} {ev.group(1)} {ev.group(3)} {ev.group(2)}"))
         elif t[0] in ("merge", "clear", "restart", "fp"):
             out.append((i, f"{t[0]} {t[1]}"))
         elif t[0] == "advupdate":
@@ -698,6 +705,29 @@ def final_view(w):
             v[c] = (f["epoch"], f["members"], f["admins"], f["name"], f["state"], tuple(sorted((m["tok"], m["state"]) for m in f["msgs"])))
     return v
 
+def restart_since_rival_applied(w, i):
+    """the refused delivery at trace index i of world w: was the client restarted after it applied the commit that
+    occupies the refused commit's epoch (the rival created on the same state)?  Only then is the refusal the known
+    consequence of hydration (the snapshot of that epoch lost its timestamp)."""
+    t = w.trace[i][0].split()
+    if t[0] != "deliver":
+        return False
+    c, m = int(t[1]), int(t[2])
+    em = w.events.get(m)
+    if em is None:
+        return False
+    j_applied = None
+    for j in range(i - 1, -1, -1):
+        tj = w.trace[j][0].split()
+        if tj[0] == "deliver" and int(tj[1]) == c and w.trace[j][1].split()[0] == "commit":
+            en = w.events.get(int(tj[2]))
+            if en is not None and int(tj[2]) != m and en.get("parent_token") == em.get("parent_token"):
+                j_applied = j
+                break
+    if j_applied is None:
+        return False
+    return any(w.trace[k][0] == f"restart {c}" and w.trace[k][1] == "ok" for k in range(j_applied + 1, i))
+
 def oracle_c11(pairs):
     fails = []
     stats = {"pairs": 0, "pairs_with_restart": 0, "equal": 0}
@@ -713,14 +743,14 @@ def oracle_c11(pairs):
         # without the run-specific ids) must be equal step by step, not only the final views
         def heads(w):
             out, last = [], {}
-            for cmd, res, fp in w.trace:
+            for idx, (cmd, res, fp) in enumerate(w.trace):
                 if cmd.startswith("restart"):
                     continue
                 h = res.split(" ")[0]
                 t = cmd.split()
                 c = t[1] if len(t) > 1 else "-"
                 et = " ".join(fp.split(" ")[:2])          # epoch and state token of the client the call ran on
-                out.append((cmd, "ev" if h.startswith("ev=") else h, last.get(c) is not None and last.get(c) != et))
+                out.append((cmd, "ev" if h.startswith("ev=") else h, last.get(c) is not None and last.get(c) != et, idx))
                 last[c] = et
             return out
         ra, rb = heads(a), heads(b)
@@ -741,7 +771,7 @@ def oracle_c11(pairs):
                 if first[0][0].startswith("deliver") and first[1][1].startswith("commit") and not first[0][1].startswith("commit"):
                     sig = "restart-enables-rollback"
                 elif not (first[0][0].startswith("deliver") and first[1][1] == "unprocessable" and not first[1][2]
-                          and (first[0][1].startswith("commit") or first[0][2])):
+                          and (first[0][1].startswith("commit") or first[0][2]) and restart_since_rival_applied(b, first[1][3])):
                     # the known defect: after the restart a delivery is REFUSED (unprocessable) and the client stays where it
                     # was, while the uninterrupted client accepted the commit or at least rolled back for it (the latter is
                     # rollback-before-authorisation for a forged commit); anything else is new
@@ -766,12 +796,12 @@ def replay_world(path, wid=None):
                 backends.append(t[2]); retention = int(t[3])
             if t[0] == "create":
                 admins = [int(x) for x in t[2].split(",") if x not in ("", "-")]
-            if t[0] in ("send", "selfupdate", "data", "leave", "advremove", "remove", "advupdate"):
+            if t[0] in ("send", "selfupdate", "data", "leave", "advremove", "advgce", "remove", "advupdate"):
                 kind = "app" if t[0] == "send" else ("proposal" if t[0] in ("leave", "advupdate") else "commit")
                 e = w.publish(c, kind, int(t[1]))
                 if e is not None and t[0] == "advupdate":
                     w.events[e]["unmodelled"] = True
-                if e is not None and t[0] == "advremove":
+                if e is not None and t[0] in ("advremove", "advgce"):
                     w.events[e]["adv"] = True
             elif t[0] == "rewrap":
                 r, _ = w.do(c)
